@@ -11,9 +11,10 @@
     `bigComplexToRNSScalar` (product with the scale rounded to `max(prec,128)` bits, `±0.5`, truncation).
   * `Meta` = (level, degree, scale, LogDimensions.Cols) and, for every public `ckks.Evaluator`
     method, the output metadata **as the code computes it** (not as it should be), plus the exact
-    integer *effect* of the operation on the operands (the multipliers applied to `op0`, `op1`, the
-    previous content of `opOut`, and the RNS constants), which the harness reads back from
-    transparent ciphertexts (`c0` a monomial, `c1 = 0`).
+    integer *effect* of the operation **on every component** `c_0, c_1, c_2` of the result (the
+    multipliers applied to the matching component of `op0`, `op1` and of the previous `opOut`, and the
+    RNS constants), which the harness reads back from transparent ciphertexts (every component a
+    distinct monomial: `op0.c_i = X^(1+4i)`, `op1.c_i = X^(2+4i)`, `opOut.c_i = X^(4+4i)`).
 
   Not modelled: ring arithmetic on limbs (C01/C02), noise, float64/big.Float FFT (probes only).
 -/
@@ -223,14 +224,25 @@ def bigIntConst (P : Params) (k : Nat) : Int :=
 
 def sgn (sub : Bool) (x : Int) : Int := if sub then -x else x
 
+/-- per-component effect list: `f i` for `i = 0 … deg`, concatenated. -/
+def perComp (deg : Nat) (f : Nat → List Int) : List Int := (List.range (deg + 1)).flatMap f
+
+/-- multiplier `k` on the receiver's old components `0 … oDeg` of a result of degree `deg`. -/
+def gammaList (k : Int) (oDeg deg Q : Nat) : List Int :=
+  perComp deg fun i => [if i ≤ oDeg then centerMod k Q else 0]
+
 /-! ## Add / Sub -/
 
 /-- `Add/Sub` with an `rlwe.ElementInterface` operand: `InitOutputBinaryOp`, `evaluateInPlace`.
-    effect `[k0, ±k1]`: `opOut = k0·op0 ± k1·op1`. -/
+    effect, for every component `i` of the result, `[α_i, β_i, γ_i]` with
+    `opOut.c_i = α_i·op0.c_i + β_i·op1.c_i + γ_i·opOut_old.c_i`: both operands (scale-matched) up to the
+    smaller degree, the scale-matched operand of higher degree alone above it (negated for `Sub` if it
+    is `op1`); the receiver's previous content never survives (`γ_i = 0`; the result has the degree of
+    the operands since the fix of `InitOutputBinaryOp`). -/
 def addElt (P : Params) (sub : Bool) (a b o : Meta) : R :=
   if a.degree + b.degree = 0 then .error .err else
     let level := min (min a.level b.level) o.level
-    let degree := max (max a.degree b.degree) o.degree
+    let degree := max a.degree b.degree
     let ls := max a.logSlots b.logSlots
     let (k0, k1) : Int × Int :=
       match a.scale.cmp b.scale with
@@ -238,7 +250,11 @@ def addElt (P : Params) (sub : Bool) (a b o : Meta) : R :=
       | .lt => (bigIntConst P (sdiv b.scale a.scale).toNat, 1)
       | .eq => (1, 1)
     let Q := P.bigQ level
-    .ok ⟨⟨level, degree, a.scale.max b.scale, ls⟩, [centerMod k0 Q, centerMod (sgn sub k1) Q]⟩
+    let minD := min a.degree b.degree
+    let eff := perComp degree fun i =>
+      if i ≤ minD then [centerMod k0 Q, centerMod (sgn sub k1) Q, 0]
+      else if b.degree < a.degree then [centerMod k0 Q, 0, 0] else [0, centerMod (sgn sub k1) Q, 0]
+    .ok ⟨⟨level, degree, a.scale.max b.scale, ls⟩, eff⟩
 
 /-- `Add/Sub` with a scalar: the receiver takes `op0`'s scale (since fix C06-1; before, `opOut.Scale`
     was not written).  effect `[±re, ±im]` (added constants). -/
@@ -246,7 +262,8 @@ def addScalar (P : Params) (sub : Bool) (a o : Meta) (re im : SD) : R :=
   let level := min a.level o.level
   let (cr, ci) := consts P re im a.scale
   let Q := P.bigQ level
-  .ok ⟨⟨level, a.degree, a.scale, a.logSlots⟩, [centerMod (sgn sub cr) Q, centerMod (sgn sub ci) Q]⟩
+  .ok ⟨⟨level, a.degree, a.scale, a.logSlots⟩,
+    [centerMod (sgn sub cr) Q, centerMod (sgn sub ci) Q] ++ perComp a.degree (fun _ => [1])⟩
 
 /-- `Encoder.Embed` length check: `len ≤ MaxSlots` and `len ≤ 2^LogDimensions.Cols`. -/
 def encodeOk (P : Params) (logSlots len : Nat) : Bool :=
@@ -279,7 +296,7 @@ def mulScalar (P : Params) (a o : Meta) (re im : SD) : R := do
   let s ← scalarScale P level re im
   let (cr, ci) := consts P re im s
   let Q := P.bigQ level
-  .ok ⟨⟨level, a.degree, smul a.scale s, a.logSlots⟩, [centerMod cr Q, centerMod ci Q]⟩
+  .ok ⟨⟨level, a.degree, smul a.scale s, a.logSlots⟩, perComp a.degree (fun _ => [centerMod cr Q, centerMod ci Q])⟩
 
 /-- `Mul` with a vector: encoded at scale `q_level(·q_{level-1})`, then `mulRelin`. -/
 def mulVec (P : Params) (a o : Meta) (len : Nat) : R := do
@@ -293,30 +310,35 @@ def mulVec (P : Params) (a o : Meta) (len : Nat) : R := do
 /-- round a dyadic to float64 precision (`Scale.Float64`), exponent range ignored. -/
 def toF64 (a : Dy) : Dy := roundRat 53 a.m 1 a.e
 
-/-- `mulRelinThenAdd`.  effect `[kOut]`: `opOut = kOut·opOut + op0·op1`. -/
+/-- the multiplier `mulRelinThenAdd` applies to the receiver before accumulating, and the new scale. -/
+def mtaEltScale (P : Params) (level : Nat) (a b o : Meta) : Except Err (Int × Dy) :=
+  let resScale := smul a.scale b.scale
+  if o.scale.lt resScale then
+    let ratio := sdiv resScale o.scale
+    if (toF64 ratio).cmp (Dy.ofNat 2) != .lt then do
+      -- eval.Mul(opOut, &ratio.Value, opOut); opOut.Scale = resScale
+      let x : SD := ⟨false, ratio⟩
+      let s ← scalarScale P level x ⟨false, Dy.zero⟩
+      pure ((consts P x ⟨false, Dy.zero⟩ s).1, resScale)
+    else pure ((1 : Int), o.scale)
+  else pure ((1 : Int), o.scale)
+
+/-- `mulRelinThenAdd`.  effect `[γ_0, γ_1, …]`: `opOut.c_i = kOut·opOut.c_i + (op0 ⊗ op1)_i`
+    (`γ_i = kOut` on every component the receiver had). -/
 def mulThenAddElt (P : Params) (relin : Bool) (al : Alias) (a b o : Meta) : R := do
   if a.degree + b.degree = 0 then .error .err
   if a.degree + b.degree > 2 then .error .err
   if al != .fresh then .error .err
   let level := min (min a.level b.level) o.level
   let ls := max a.logSlots b.logSlots
-  let resScale := smul a.scale b.scale
-  let (kOut, scale) ←
-    if o.scale.lt resScale then
-      let ratio := sdiv resScale o.scale
-      if (toF64 ratio).cmp (Dy.ofNat 2) != .lt then do
-        -- eval.Mul(opOut, &ratio.Value, opOut); opOut.Scale = resScale
-        let x : SD := ⟨false, ratio⟩
-        let s ← scalarScale P level x ⟨false, Dy.zero⟩
-        pure ((consts P x ⟨false, Dy.zero⟩ s).1, resScale)
-      else pure ((1 : Int), o.scale)
-    else pure ((1 : Int), o.scale)
+  let (kOut, scale) ← mtaEltScale P level a b o
   let Q := P.bigQ level
   if a.degree = 1 ∧ b.degree = 1 then
     if relin then
-      if P.hasRlk then .ok ⟨⟨level, max 1 o.degree, scale, ls⟩, [centerMod kOut Q]⟩ else .error .err
-    else .ok ⟨⟨level, 2, scale, ls⟩, [centerMod kOut Q]⟩
-  else .ok ⟨⟨level, max a.degree o.degree, scale, ls⟩, [centerMod kOut Q]⟩
+      if P.hasRlk then .ok ⟨⟨level, max 1 o.degree, scale, ls⟩, gammaList kOut o.degree (max 1 o.degree) Q⟩
+      else .error .err
+    else .ok ⟨⟨level, 2, scale, ls⟩, gammaList kOut o.degree 2 Q⟩
+  else .ok ⟨⟨level, max a.degree o.degree, scale, ls⟩, gammaList kOut o.degree (max a.degree o.degree) Q⟩
 
 /-- the `op0.Scale` vs `opOut.Scale` case split shared by the scalar and vector branches of
     `MulThenAdd`: returns (constant scale, multiplier applied to opOut, new opOut scale). -/
@@ -339,7 +361,10 @@ def mulThenAddScalar (P : Params) (al : Alias) (a o : Meta) (re im : SD) : R := 
   let (s, kOut, oscale) ← mtaScale P level isInt a o
   let (cr, ci) := consts P re im s
   let Q := P.bigQ level
-  .ok ⟨⟨level, max a.degree o.degree, oscale, a.logSlots⟩, [centerMod kOut Q, centerMod cr Q, centerMod ci Q]⟩
+  let deg := max a.degree o.degree
+  .ok ⟨⟨level, deg, oscale, a.logSlots⟩, perComp deg fun i =>
+    [if i ≤ o.degree then centerMod kOut Q else 0,
+     if i ≤ a.degree then centerMod cr Q else 0, if i ≤ a.degree then centerMod ci Q else 0]⟩
 
 /-- `MulThenAdd` with a vector: scale split as above, encode, then recursion on the element branch. -/
 def mulThenAddVec (P : Params) (al : Alias) (a o : Meta) (len : Nat) : R := do
@@ -347,9 +372,11 @@ def mulThenAddVec (P : Params) (al : Alias) (a o : Meta) (len : Nat) : R := do
   let level := min a.level o.level
   let (s, kOut, oscale) ← mtaScale P level false a o
   if !encodeOk P a.logSlots len then .error .err
-  let r ← mulThenAddElt P false al a ⟨level, 0, s, a.logSlots⟩ ⟨level, max a.degree o.degree, oscale, a.logSlots⟩
-  let Q := P.bigQ level
-  .ok ⟨r.md, [centerMod (kOut * r.eff.headD 1) Q]⟩
+  let pt : Meta := ⟨level, 0, s, a.logSlots⟩
+  let o' : Meta := ⟨level, max a.degree o.degree, oscale, a.logSlots⟩
+  let r ← mulThenAddElt P false al a pt o'
+  let (kElt, _) ← mtaEltScale P level a pt o'
+  .ok ⟨r.md, gammaList (kOut * kElt) o.degree r.md.degree (P.bigQ level)⟩
 
 /-! ## Rescale, RescaleTo, SetScale, ScaleUp, DropLevel -/
 
@@ -394,7 +421,7 @@ def setScale (P : Params) (a : Meta) (target : Dy) : R := do
   let r ← rescaleTo P ⟨a.level, a.degree, smul a.scale s, a.logSlots⟩ target
   let nb := (r.eff.headD 0).toNat
   let Q := P.bigQ r.md.level
-  .ok ⟨{ r.md with scale := target }, [centerMod (divRoundMany P a.level nb c) Q]⟩
+  .ok ⟨{ r.md with scale := target }, perComp a.degree (fun _ => [centerMod (divRoundMany P a.level nb c) Q])⟩
 
 /-- `Scale.Uint64` (`big.Float.Uint64`: truncation, saturating at `2^64-1`). -/
 def Dy.toU64 (a : Dy) : Nat := Nat.min a.toNat (2 ^ 64 - 1)
@@ -403,7 +430,7 @@ def Dy.toU64 (a : Dy) : Nat := Nat.min a.toNat (2 ^ 64 - 1)
 def scaleUp (P : Params) (a o : Meta) (scale : Dy) : R :=
   let level := min a.level o.level
   let k := bigIntConst P scale.toU64
-  .ok ⟨⟨level, a.degree, smul a.scale scale, a.logSlots⟩, [centerMod k (P.bigQ level)]⟩
+  .ok ⟨⟨level, a.degree, smul a.scale scale, a.logSlots⟩, perComp a.degree (fun _ => [centerMod k (P.bigQ level)])⟩
 
 /-- `DropLevel`: `Resize(degree, level - levels)`; `levels > level` yields (without error) a
     ciphertext with no limbs (`Level() = -1`), outside the model's state space. -/
